@@ -102,6 +102,12 @@ func c16NewEnv(group string) (*c16Env, error) {
 			return scripted.Action{Tag: "udp-tc", TC: true, Leg: scripted.LegUDP}
 		case "silent":
 			return scripted.Action{Tag: "udp-silent", Drop: true}
+		case "ok4096": // a complete reply of exactly 4096 octets: as large as the transport's read buffer
+			return scripted.Action{Tag: "udp-ok-4096", Leg: scripted.LegUDP, PadTo: 4096}
+		case "ok4095":
+			return scripted.Action{Tag: "udp-ok-4095", Leg: scripted.LegUDP, PadTo: 4095}
+		case "tcbare": // truncated, and nothing but a header (no question echoed)
+			return scripted.Action{Tag: "udp-tc-bare", TC: true, NoQuestion: true, Leg: scripted.LegUDP}
 		case "okslow": // a complete reply, but only after 2.6 s
 			return scripted.Action{Tag: "udp-ok-slow", Leg: scripted.LegUDP, Delay: 2600 * time.Millisecond}
 		case "tclate": // truncated; the first datagram of a question is answered after 1.5 s, any further one at once
@@ -650,6 +656,12 @@ func c16Slow(c *Ctx) {
 		ex.DeadMs = 5000
 		exs = append(exs, ex)
 	}
+	for i := 0; i < c.N(9, 45); i++ {
+		r := gen.New(c.Seed, "c16-shape", i)
+		ex := c16Gen(r, 810000+i, []string{"ok4096", "ok4095", "tcbare"}[i%3], "ok")
+		ex.DeadMs = 2500
+		exs = append(exs, ex)
+	}
 	var wg sync.WaitGroup
 	for _, ex := range exs {
 		wg.Add(1)
@@ -663,6 +675,22 @@ func c16Slow(c *Ctx) {
 		tcpN := len(lg.tcpQ[ex.Name])
 		w := c16Witness{Exchange: ex, Rule: "slow-udp-reply", UDPSeen: lg.udpQ[ex.Name], TCPSeen: lg.tcpQ[ex.Name], UDPSent: lg.udpR[ex.Name], TCPSent: lg.tcpR[ex.Name]}
 		switch ex.UDP {
+		case "ok4096", "ok4095":
+			switch {
+			case tcpN > 0:
+				c.Violation("tcp-attempt-without-tc:"+ex.UDP, fmt.Sprintf("exchange %q: the UDP reply (TC=0, %s octets) is complete, yet the question arrived over TCP %d time(s)", ex.Name, ex.UDP[2:], tcpN), w)
+			case !ex.Returned || ex.Leg != "U" || ex.GotTC:
+				c.Violation("udp-reply-not-returned-as-received:"+ex.UDP, fmt.Sprintf("exchange %q: a complete UDP reply of %s octets was sent, the exchange returned=%v leg=%q tc=%v err=%s", ex.Name, ex.UDP[2:], ex.Returned, ex.Leg, ex.GotTC, ex.Err), w)
+			default:
+				c.Ev.Distinct("shape", ex.UDP, ex.Form)
+			}
+		case "tcbare":
+			switch {
+			case !ex.Returned || ex.Leg != "T":
+				c.Violation("tcp-outcome-not-returned:bare-tc-header", fmt.Sprintf("exchange %q: the UDP reply was a bare header with TC=1 and the caller's id; the TCP side answers at once: returned=%v leg=%q err=%s, TCP arrivals %d", ex.Name, ex.Returned, ex.Leg, ex.Err, tcpN), w)
+			default:
+				c.Ev.Distinct("shape", ex.UDP, ex.Form)
+			}
 		case "okslow":
 			switch {
 			case tcpN > 0:
